@@ -49,6 +49,8 @@ class Monitor:
         self.guard = 0  # re-entrancy depth: >0 means a shadow execution is running
         self.current_case = None
         self.foreign = False  # True while the repository's own tests drive the calls
+        self.classifier = None
+        self.per_class = collections.Counter()
 
     # -- bookkeeping -------------------------------------------------------------------------
     def case(self, case, canon=None, nontrivial=True, sample_every=0):
@@ -79,15 +81,23 @@ class Monitor:
             self.notes["advisory:" + contract] += 1
             return
         self.nviol[contract] += 1
-        if len(self.violations) < MAX_VIOLATIONS_KEPT:
-            self.violations.append(
-                {
-                    "contract": contract,
-                    "key": key,
-                    "detail": str(detail)[:1500],
-                    "case": case if case is not None else self.current_case,
-                }
-            )
+        v = {
+            "contract": contract,
+            "key": key,
+            "detail": str(detail)[:1500],
+            "case": case if case is not None else self.current_case,
+        }
+        if self.classifier is not None:
+            try:
+                v["key"] = self.classifier(v)
+            except Exception as e:  # pragma: no cover
+                self.notes["classifier-error:" + type(e).__name__] += 1
+        # keep a few witnesses per (contract, mechanism) class so that one frequent class
+        # cannot crowd out the others
+        cls = (contract, v["key"] if v["key"] is not None else v["detail"][:60])
+        self.per_class[cls] += 1
+        if self.per_class[cls] <= 4 and len(self.violations) < MAX_VIOLATIONS_KEPT:
+            self.violations.append(v)
 
     # -- (de)serialisation ----------------------------------------------------------------------
     def dump(self):
